@@ -153,6 +153,8 @@ impl Array {
                     }
                 });
 
+                // the summed dimensions of the delta are flattened into one
+                let x = Array::from((target_clone.clone(), Rc::clone(&x.values)));
                 vec![Some(Array::sliced_op(
                     vec![&x],
                     &op,
